@@ -79,6 +79,36 @@ func (constraint TypeConstraint) DeepCopy() TypeConstraint {
 	return newConstraint
 }
 
+// deepCopyValue duplicates the dynamic values stored in the IR's `any` fields
+// (defaults, hints, constants): lists, maps and types are copied recursively,
+// scalars are returned as they are.
+func deepCopyValue(value any) any {
+	switch typed := value.(type) {
+	case []any:
+		if typed == nil {
+			return typed
+		}
+		clone := make([]any, 0, len(typed))
+		for _, item := range typed {
+			clone = append(clone, deepCopyValue(item))
+		}
+		return clone
+	case map[string]any:
+		if typed == nil {
+			return typed
+		}
+		clone := make(map[string]any, len(typed))
+		for k, v := range typed {
+			clone[k] = deepCopyValue(v)
+		}
+		return clone
+	case Type:
+		return typed.DeepCopy()
+	default:
+		return value
+	}
+}
+
 // JenniesHints meant to be used by jennies, to gain a finer control on the codegen from schemas
 type JenniesHints map[string]any
 
@@ -258,7 +288,7 @@ func (t Type) DeepCopy() Type {
 	newType := Type{
 		Kind:     t.Kind,
 		Nullable: t.Nullable,
-		Default:  t.Default,
+		Default:  deepCopyValue(t.Default),
 		Hints:    make(JenniesHints, len(t.Hints)),
 	}
 
@@ -304,7 +334,7 @@ func (t Type) DeepCopy() Type {
 	}
 
 	for k, v := range t.Hints {
-		newType.Hints[k] = v
+		newType.Hints[k] = deepCopyValue(v)
 	}
 
 	newType.PassesTrail = append(newType.PassesTrail, t.PassesTrail...)
